@@ -289,6 +289,21 @@ theorem write_failure_states_spec {σ : Type} (fr : Framing) (cfg : ServerCfg σ
   rw [h.2.1, h.2.2.1, C01.runFrames_eq_spec]
   exact ⟨rfl, rfl⟩
 
+/-- **write_failure_monotone**: a later fault only adds to what an earlier fault lets through: the
+    wire of the session whose `(n+1)`-th write fails is a prefix of the wire of the session whose
+    `(m+1)`-th write fails, for `n ≤ m` -/
+theorem write_failure_monotone {σ : Type} (fr : Framing) (cfg : ServerCfg σ) (l : DecodeLevel)
+    (n m : Nat) (hnm : n ≤ m) (hs : List (Nat × σ)) (script : List SessStep) :
+    (runSessionW fr cfg l n hs script).tx <+: (runSessionW fr cfg l m hs script).tx := by
+  rw [write_failure_wire, write_failure_wire]
+  generalize (runFrames cfg hs (C01.sessionFrames fr script)).1 = rs
+  have : rs.take n <+: rs.take m := by
+    rw [show rs.take n = (rs.take m).take n by rw [List.take_take]; congr 1; omega]
+    exact List.take_prefix _ _
+  obtain ⟨t, ht⟩ := this
+  rw [← ht, List.map_append, List.flatten_append]
+  exact List.prefix_append _ _
+
 /-! ## Non-vacuity -/
 
 open Demo
